@@ -80,10 +80,12 @@ type world struct {
 	pollBound time.Duration
 	// C06 "expwait" mode: several waiters parked across one expiry instant
 	expAt map[string]time.Time
+	// last value written per key (for writes that deliberately keep the value)
+	lastVal map[string]string
 }
 
 func New(c *sim.Case) (sim.World, error) {
-	return &world{c: c, mode: c.Mode, allVers: map[string]string{}, states: map[string][]keyState{}, lastMutRet: map[string]time.Time{}, expAt: map[string]time.Time{}}, nil
+	return &world{c: c, mode: c.Mode, allVers: map[string]string{}, states: map[string][]keyState{}, lastMutRet: map[string]time.Time{}, expAt: map[string]time.Time{}, lastVal: map[string]string{}}, nil
 }
 
 func (w *world) prop() string { return w.c.Prop }
@@ -104,6 +106,9 @@ func (w *world) Setup(e *sim.Env) {
 	if w.prop() == "C06" {
 		grace = 2 * time.Millisecond
 	}
+	if g := w.c.Knob("grace_ms", 0); g > 0 {
+		grace = time.Duration(g) * time.Millisecond
+	}
 	w.m = newModel(grace)
 	w.m.LaxVersions = w.prop() == "C06"
 	w.pollBound = 250 * time.Millisecond
@@ -117,7 +122,9 @@ func (w *world) Setup(e *sim.Env) {
 		ts := &taskState{name: t.Name, idx: ti, cl: be.Client(ci), seen: map[string][]string{}}
 		w.tasks = append(w.tasks, ts)
 		e.Spawn(t.Name, func() { w.runTask(ts, t) }, func(v any, stack string) {
-			e.Violate(w.prop(), "panic", "panic in %s: %v\n%s", t.Name, v, firstLines(stack, 12))
+			// no stack in the message: it carries goroutine ids and addresses and the
+			// message is part of the canonical trace
+			e.Violate(w.prop(), "panic", "panic in %s: %v", t.Name, v)
 		})
 	}
 }
@@ -239,6 +246,10 @@ func (w *world) doOp(ctx context.Context, ts *taskState, op sim.Op, i int) {
 	case "create", "put", "cas", "del", "putmany":
 		mutating = true
 	}
+	if op.V == "=" {
+		// keep the stored value (a lease-refresh style write): only version/expiry move
+		op.V = w.lastVal[op.S]
+	}
 	if wmode && mutating {
 		w.mutTok.Lock()
 		w.inFlight++
@@ -272,6 +283,9 @@ func (w *world) doOp(ctx context.Context, ts *taskState, op sim.Op, i int) {
 		}
 		if wmode && err == nil {
 			w.newState(op.S, true, ver, call)
+		}
+		if err == nil {
+			w.lastVal[op.S] = op.V
 		}
 	case "get":
 		r, err := ts.cl.Get(ctx, op.S)
@@ -341,6 +355,9 @@ func (w *world) doOp(ctx context.Context, ts *taskState, op sim.Op, i int) {
 		if wmode && err == nil {
 			w.newState(op.S, true, r.Version, call)
 		}
+		if err == nil {
+			w.lastVal[op.S] = op.V
+		}
 	case "putmany":
 		keys := split(op.S)
 		vals := split(op.V)
@@ -395,6 +412,9 @@ func (w *world) doOp(ctx context.Context, ts *taskState, op sim.Op, i int) {
 		}
 		if wmode && err == nil {
 			w.newState(op.S, true, r.Version, call)
+		}
+		if err == nil {
+			w.lastVal[op.S] = op.V
 		}
 	case "del":
 		err := ts.cl.Delete(ctx, op.S)
